@@ -4,7 +4,7 @@ import glob, os, re, subprocess, sys
 import vbuild, gen_api, p_e2
 from vcommon import Report, VERIF
 
-SAN = ["-fsanitize=address,undefined", "-fno-sanitize-recover=undefined", "-fno-omit-frame-pointer", "-g1"]
+SAN = ["-fsanitize=address,undefined", "-fno-sanitize-recover=undefined", "-fno-omit-frame-pointer", "-g1", "-D_GLIBCXX_ASSERTIONS"]  # libstdc++ assertions: out-of-range operator[] inside retained capacity aborts
 
 
 def san_env(logbase, leaks=True):
@@ -56,7 +56,7 @@ def check(tier):
         return n
 
     # (1) E2 spaces under the sanitizers (every transition's process exits normally so that LeakSanitizer runs)
-    spaces = [("c12", None), ("c17", None)] + [("c11", s) for s in (["radiation_integrated_intensity", "cp_normal", "euler_1d"] if tier == "quick" else ["radiation_integrated_intensity", "cp_normal", "euler_1d", "navierstokes_4d_compressible_powerlaw", "fans_sa_steady_wall_bounded", "sod_1d", "navierstokes_ablation_1d_steady", "heateq_3d_unsteady_var"])]
+    spaces = [("c16" if tier == "thorough" else "c12", None), ("c17", None)] + [("c11", s) for s in (["radiation_integrated_intensity", "cp_normal", "euler_1d"] if tier == "quick" else ["radiation_integrated_intensity", "cp_normal", "euler_1d", "navierstokes_4d_compressible_powerlaw", "fans_sa_steady_wall_bounded", "sod_1d", "navierstokes_ablation_1d_steady", "heateq_3d_unsteady_var"])]
     results = []
     for sp, sol in spaces:
         out = os.path.join(b.dir, "%s_%s.out" % (sp, sol or "x"))
@@ -66,6 +66,16 @@ def check(tier):
         collect_logs("E2 space %s%s under ASan/UBSan/LSan" % (sp, "/" + sol if sol else ""))
         results.append(res)
         states += res["summary"]["states"]; trans += res["summary"]["transitions"]
+    if tier == "thorough":
+        # misuse continued *through* the failure: exception build under ASan/UBSan (a failed call that left a dangling selection or a
+        # half-destroyed instance is used again by the following transitions)
+        bx = vbuild.Build("asanx", extra_flags=SAN + ["-DMASA_EXCEPTIONS"], root=b.root).build()
+        e2x = os.path.join(bx.dir, "e2sanx")
+        bx.compile_harness([os.path.join(VERIF, "src", "e2_main.cpp")], e2x, flags=["-O1", "-w", "-DMASA_EXCEPTIONS"] + SAN, incs=[gen])
+        res = p_e2.run_space(e2x, "c16", "quick", os.path.join(bx.dir, "c16x.out"), env=env_noleak, deadline=p_e2.DEADLINE[tier] / 3)
+        p_e2.add_violations(rep, res, "C19", build="asan+exceptions", only=lambda m: "terminated" in m or "abnormally" in m or "wait status" in m)
+        collect_logs("E2 space c16 (exception build) under ASan/UBSan")
+        results.append(res); states += res["summary"]["states"]; trans += res["summary"]["transitions"]
     samples.append({"oracle": "ASan+UBSan+LSan on E2 spaces", "spaces": [{"space": r["space"], "solution": r["solution"], **r["summary"]} for r in results]})
     # (2) history families: every ordered pair of catalogue solutions (thorough) / every solution with a partner (quick)
     pout = os.path.join(b.dir, "pairs.out")
@@ -88,7 +98,7 @@ def check(tier):
             pid = re.search(r"pid=(\d+)", bl).group(1)
             rep.violation("history family F: process ended abnormally (%s) %s" % (bl, pid2hist.get(pid)), {"engine": "c19", "oracle": "asan", "history": pid2hist.get(pid)})
     states += total; trans += total * 260
-    samples.append({"oracle": "ASan+UBSan+LSan on history families", "histories": total, "family": "init(h1,S1); init(h2,S2); display; sanity; all 117 evaluators; vectors get/set len 0/3, C arrays n in {0,1,3}; select; get all; purge; init_param; re-init x3; long double registry; printid"})
+    samples.append({"oracle": "ASan+UBSan+LSan on history families", "histories": total, "family": "init(h1,S1); init(h2,S2); display; sanity; all 117 evaluators; every vector set to lengths 0/3/30 one at a time in both orders with a full evaluator sweep after each change, C arrays n in {0,1,3}; select; get all; purge; init_param; re-init x3; long double registry; printid"})
     # ---------------------------------------------------------------- valgrind memcheck on the uninstrumented build
     bp = vbuild.Build("plain", root=b.root).build()
     genp = os.path.join(bp.dir, "gen"); os.makedirs(genp, exist_ok=True)
@@ -147,7 +157,7 @@ def check(tier):
         "rule": "histories = all transitions of the closed E2 spaces (registry, C/C++ mixed, parameter store incl. vector length changes) + the family F(S1,S2) for every ordered pair (thorough) / every solution (quick) of the catalogue, each in its own process under ASan+UBSan with LeakSanitizer at normal exit; the same family in-process under valgrind memcheck; live-heap accounting for 1,2,4,8 re-inits and 8 fresh handles per solution. transitions for history families are estimated as 260 API calls per history",
         "exhaustive": True,
     })
-    rep.assumptions += ["sanitizers/valgrind see only what executes: padding reads that never influence control flow or output are invisible", "evaluating a solution whose vector parameters were shrunk below the length its scalar parameters announce (radiation: no_gauss) is treated as an inadmissible configuration and not executed"]
+    rep.assumptions += ["sanitizers/valgrind see only what executes: padding reads that never influence control flow or output are invisible", "vector lengths restricted to {0,1,3,30} (set one vector at a time, in both orders, each change followed by a full evaluator sweep)"]
     return rep.finish()
 
 
